@@ -107,6 +107,11 @@ type appBlock struct {
 	// Quiet: twins with Extra answer no queries during this block (queries re-read the store and could repair
 	// a stale in-memory object before it is observed); they still simulate.
 	Quiet bool `json:"quiet,omitempty"`
+	// Slow: in the twin that plays a slow node, the SlowAt-th end blocker of this block runs with a logger that sleeps
+	// on every call (ante_test.go).
+	Slow     bool `json:"slow,omitempty"`
+	SlowAt   int  `json:"slow_at,omitempty"`
+	SlowFrom int  `json:"slow_from,omitempty"` // the episode of slowness starts with this logger call of the blocker
 }
 
 type appGenesis struct {
@@ -177,6 +182,7 @@ type appWorld struct {
 	end   []func(context.Context) error
 
 	keys []storeRef // persistent KV stores, by name
+	ante sdk.AnteHandler // the paloma ante decorators; constructed with the application (a restart makes a new chain)
 }
 
 func newAppWorld(t *testing.T, sc *appScript) *appWorld {
@@ -238,6 +244,7 @@ func (w *appWorld) bind() {
 	for _, n := range names {
 		w.keys = append(w.keys, storeRef{name: n, key: byName[n]})
 	}
+	w.ante = w.buildAnte()
 }
 
 func (w *appWorld) at(height, unix int64) sdk.Context {
@@ -573,6 +580,16 @@ func (w *appWorld) execMsg(ctx sdk.Context, m appMsg) (obs string, err error) {
 		err = w.valsetGov(ctx, &valsettypes.SetPigeonRequirementsProposal{Title: "p", Description: "p", MinVersion: m.Data, TargetBlockHeight: m.Gas})
 	case "secfee":
 		err = w.treasGov(ctx, &treasurytypes.SecurityFeeProposal{Title: "s", Description: "s", Fee: m.Data})
+	case "gasexempt":
+		// governance: the list of gas exempt addresses becomes the accounts of the validators named in Data ("0,2"; "" = none)
+		var vs []int
+		for _, p := range strings.Split(m.Data, ",") {
+			var k int
+			if _, serr := fmt.Sscanf(p, "%d", &k); serr == nil {
+				vs = append(vs, k%len(w.vals))
+			}
+		}
+		err = w.gasExempt(ctx, vs)
 	case "job":
 		var id uint64
 		id, err = f.SchedulerKeeper.ExecuteJob(ctx, fmt.Sprintf("job%d", m.Chain%g.NChains), nil, sdk.AccAddress(w.vals[v]), nil)
@@ -655,9 +672,28 @@ func shortErr(err error) string {
 // succeeds; a panic is a failed transaction.  commit=false: simulation, never written back.
 func (w *appWorld) runTx(ctx sdk.Context, tx appTx, commit bool) (res string, evs sdk.Events) {
 	branch, write := ctx.CacheContext()
-	branch = branch.WithEventManager(sdk.NewEventManager())
+	// its own gas meter: the gas a transaction used is part of its result (and of the block's results hash)
+	branch = branch.WithEventManager(sdk.NewEventManager()).WithGasMeter(storetypes.NewInfiniteGasMeter())
 	if !commit {
 		branch = branch.WithIsCheckTx(true)
+	}
+	gas := func() string { return fmt.Sprintf("gas=%d", branch.GasMeter().GasConsumed()) }
+	// the ante chain first (CheckTx mode for a simulated execution); it may replace the gas meter
+	var aerr error
+	func() {
+		defer func() {
+			if r := recover(); r != nil {
+				aerr = fmt.Errorf("panic: %v", r)
+			}
+		}()
+		var actx sdk.Context
+		actx, aerr = w.ante(branch, w.anteTxOf(tx), false)
+		if aerr == nil {
+			branch = actx
+		}
+	}()
+	if aerr != nil {
+		return fmt.Sprintf("fail@ante: %s %s", shortErr(aerr), gas()), nil
 	}
 	var obs []string
 	for i, m := range tx.Msgs {
@@ -672,20 +708,24 @@ func (w *appWorld) runTx(ctx sdk.Context, tx appTx, commit bool) (res string, ev
 			o, err = w.execMsg(branch, m)
 		}()
 		if err != nil {
-			return fmt.Sprintf("fail@%d %s: %s", i, m.Kind, shortErr(err)), nil
+			return fmt.Sprintf("fail@%d %s: %s %s", i, m.Kind, shortErr(err), gas()), nil
 		}
 		obs = append(obs, o)
 	}
 	if commit {
 		write()
 	}
-	return "ok " + strings.Join(obs, ";"), branch.EventManager().Events()
+	return "ok " + strings.Join(obs, ";") + " " + gas(), branch.EventManager().Events()
 }
 
 // beginEnd runs the block's begin and end blockers in app.go order on ctx.
-func (w *appWorld) runBlockers(ctx sdk.Context, fs []func(context.Context) error) string {
+func (w *appWorld) runBlockers(ctx sdk.Context, fs []func(context.Context) error, slowAt ...int) string { // slowAt: blocker index, first slow call
 	var errs []string
 	for i, f := range fs {
+		ctx := ctx
+		if len(slowAt) == 2 && slowAt[0] == i {
+			ctx = slowCtx(ctx, slowAt[1]) // this node is slow for a while during this blocker
+		}
 		func() {
 			defer func() {
 				if r := recover(); r != nil {
@@ -807,7 +847,12 @@ func (w *appWorld) runBlock(i int, b appBlock, extra, restart bool) blockOut {
 		}
 	}
 	ectx := ctx.WithEventManager(sdk.NewEventManager())
-	e := w.runBlockers(ectx, w.end)
+	var e string
+	if b.Slow && os.Getenv("C08_SLOW") != "" {
+		e = w.runBlockers(ectx, w.end, b.SlowAt%len(w.end), b.SlowFrom)
+	} else {
+		e = w.runBlockers(ectx, w.end)
+	}
 	if e != "" {
 		out.Tx = append(out.Tx, "end:"+e)
 	}
